@@ -144,8 +144,10 @@ impl<'a> Recorder<'a> {
         let id = self.next_reg;
         self.next_reg += 1;
         let t = self.fresh_tape();
-        let (_, out) = self.emit(json!({"ev": "CRegStart", "id": id, "pw": -(pw + 1), "tape": t}));
-        self.regs.push(RegS { id, pw, req: out[0], done: false });
+        let (r, out) = self.emit(json!({"ev": "CRegStart", "id": id, "pw": -(pw + 1), "tape": t}));
+        // (an implementation may refuse an over-long password at start already: nothing to continue with)
+        let started = r == Res::Ok && !out.is_empty();
+        self.regs.push(RegS { id, pw, req: if started { out[0] } else { 0 }, done: !started });
         id
     }
     pub fn sreg_start(&mut self, s: i64, req: i64, cid: i64, reg: i64) -> Option<[i64; 2]> {
@@ -188,6 +190,9 @@ impl<'a> Recorder<'a> {
     pub fn register(&mut self, s: i64, pw: i64, cid: i64, idu: i64, ids: i64, ksf: i64) -> Option<[i64; 4]> {
         let reg = self.reg_start(pw);
         let req = self.regs.last().unwrap().req;
+        if req == 0 {
+            return None;
+        }
         let resp = self.sreg_start(s, req, cid, reg)?;
         let up = self.reg_finish(reg, pw, resp, idu, ids, ksf, false)?;
         self.sreg_finish(up, cid)?;
@@ -197,8 +202,10 @@ impl<'a> Recorder<'a> {
         let id = self.next_cli;
         self.next_cli += 1;
         let t = self.fresh_tape();
-        let (_, out) = self.emit(json!({"ev": "CLogStart", "id": id, "pw": -(pw + 1), "tape": t}));
-        self.clis.push(CliS { id, pw, req: [out[0], out[1], out[2]], done: false });
+        let (r, out) = self.emit(json!({"ev": "CLogStart", "id": id, "pw": -(pw + 1), "tape": t}));
+        if r == Res::Ok && out.len() >= 3 {
+            self.clis.push(CliS { id, pw, req: [out[0], out[1], out[2]], done: false });
+        }
         id
     }
     #[allow(clippy::too_many_arguments)]
